@@ -175,7 +175,7 @@ def loop_order_(imp, method, pred_re):
     # once before the loop, …) is the pessimistic fact `false`.
     mnow = re.search(r"let now = (?:std::time::)?Instant::now\(\);", n)
     arg = grp["park"]
-    arg_ok = arg == "deadline - now" or (arg == "timeout" and re.search(r"let timeout = deadline - now;", n) is not None)
+    arg_ok = arg in ("deadline - now", "deadline.saturating_duration_since(now)", "deadline.duration_since(now)") or (arg == "timeout" and re.search(r"let timeout = deadline - now;", n) is not None)
     # … and `deadline` itself must be the call's own: the `deadline: Instant` parameter (never re-bound), or the
     # local `let deadline = Instant::now() + timeout;` computed from the call's `timeout` parameter before the
     # loop.  A deadline read from shared state (a field that outlives the call) is the pessimistic fact too.
